@@ -182,9 +182,14 @@ def run_case(spec):
         counters["verdict_" + verdict.replace("Error", "") if verdict != "ServerError" else "verdict_ServerError"] = 1
         if verdict in ("WelcomeError",):
             counters["verdict_WelcomeError"] = 1
+        internal = False
         if model == "<internal error>":
             if verdict not in ("ServerConnectionError",):
-                viol.append({"key": "C08/verdict/internal-error/" + verdict, "msg": "%s closed with %s via Boss.error" % (app.name, verdict),
+                internal = True
+                detail = verdict
+                if verdict == "NoTransition" and MON.notrans:
+                    detail = "NoTransition/%s.%s/%s" % MON.notrans[0]
+                viol.append({"key": "C08/verdict/internal-error/" + detail, "msg": "%s closed with %s via Boss.error (%s)" % (app.name, verdict, detail),
                              "witness": wit()})
         elif model != verdict:
             viol.append({"key": "C08/verdict/%s-instead-of-%s" % (verdict, model),
@@ -217,6 +222,8 @@ def run_case(spec):
         after = [k for k in kinds[kinds.index("closed"):] if k != "closed" and not k.endswith("-err")]
         if after:
             viol.append({"key": "C08/event-after-closed/" + after[0], "msg": "%s: %s" % (app.name, kinds), "witness": wit()})
+        if internal:
+            continue      # the Terminator never runs after Boss.error: leftovers are consequences of the root cause above
         # server resources
         np_known = app.w._boss._N._nameplate
         for (name, s, claimed) in claims:
